@@ -12,7 +12,9 @@
 (***************************************************************************)
 EXTENDS Integers, FiniteSets, TLC
 
-CONSTANTS FixZ1, Procs     \* e.g. {"syncdb", "disable", "snap", "enable"}
+CONSTANTS FixZ1, Procs,    \* e.g. {"syncdb", "disable", "snap", "enable"}
+          FixQ1            \* FALSE: the read transaction is bound to the context of the call that began it (finding Q1): it dies
+                           \* when that call - a request with its own context - returns
 
 VARIABLES
   pc,          \* per process program counter
@@ -21,13 +23,14 @@ VARIABLES
   opened, inited, rtx,
   streaming,   \* a snapshot stream goroutine holds chkMu.RLock
   done,        \* processes that finished
-  hz           \* history: shapes of known findings seen
-vars == <<pc, execSem, chkR, chkW, opened, inited, rtx, streaming, done, hz>>
+  hz,          \* history: shapes of known findings seen
+  rtxBy        \* the process whose context the read transaction was begun with ("boot" = the daemon's own context)
+vars == <<pc, execSem, chkR, chkW, opened, inited, rtx, streaming, done, hz, rtxBy>>
 
 Init == /\ pc = [p \in Procs |-> "start"]
         /\ execSem = "free" /\ chkR = 0 /\ chkW = FALSE
         /\ opened = TRUE /\ inited = TRUE /\ rtx = TRUE       \* a running, initialised DB
-        /\ streaming = FALSE /\ done = {} /\ hz = {}
+        /\ streaming = FALSE /\ done = {} /\ hz = {} /\ rtxBy = "boot"
 
 Goto(p, l) == pc' = [pc EXCEPT ![p] = l]
 Finish(p) == pc' = [pc EXCEPT ![p] = "end"] /\ done' = done \cup {p}
@@ -44,6 +47,7 @@ SyncInit(p) == /\ pc[p] = "s_init"
                /\ IF FixZ1 /\ ~opened
                     THEN Goto(p, "s_unlock") /\ UNCHANGED <<inited, rtx>>     \* refuse to re-initialise a closed DB
                     ELSE inited' = TRUE /\ rtx' = TRUE /\ Goto(p, "s_copy")
+               /\ rtxBy' = IF (FixZ1 /\ ~opened) \/ rtx THEN rtxBy ELSE p       \* acquireReadLock is a no-op while a transaction is held
                /\ UNCHANGED <<execSem, chkR, chkW, opened, streaming, done>>
 SyncCopyBegin(p) == /\ pc[p] = "s_copy" /\ ~chkW
                     /\ chkR' = chkR + 1 /\ Goto(p, "s_copy2")
@@ -58,10 +62,12 @@ SyncChk(p) == /\ pc[p] = "s_chk"
               /\ UNCHANGED <<execSem, chkR, opened, inited, streaming, done>>
 SyncChkRelease(p) == /\ pc[p] = "s_chk_rel" /\ rtx' = FALSE /\ Goto(p, "s_chk_reacq")
                      /\ UNCHANGED <<execSem, chkR, chkW, opened, inited, streaming, done>>
-SyncChkReacq(p) == /\ pc[p] = "s_chk_reacq" /\ rtx' = TRUE /\ chkW' = FALSE /\ Goto(p, "s_unlock")
+SyncChkReacq(p) == /\ pc[p] = "s_chk_reacq" /\ rtx' = TRUE /\ chkW' = FALSE /\ Goto(p, "s_unlock") /\ rtxBy' = p
                    /\ UNCHANGED <<execSem, chkR, opened, inited, streaming, done>>
+\* the request returns and its context is cancelled: database/sql rolls back a transaction begun with it
 SyncUnlock(p) == /\ pc[p] = "s_unlock" /\ execSem' = "free" /\ Finish(p)
-                 /\ UNCHANGED <<chkR, chkW, opened, inited, rtx, streaming>>
+                 /\ rtx' = IF ~FixQ1 /\ rtxBy = p THEN FALSE ELSE rtx
+                 /\ UNCHANGED <<chkR, chkW, opened, inited, streaming, rtxBy>>
 
 \* ---------------- Store.DisableDB : check IsOpen, then DB.Close
 CloseCheck(p) == /\ pc[p] = "start" /\ p = "disable"
@@ -104,7 +110,8 @@ Step0(p) == \/ SyncCheck(p) \/ SyncLock(p) \/ SyncInit(p) \/ SyncCopyBegin(p) \/
            \/ CloseCheck(p) \/ CloseLock(p) \/ CloseSync(p) \/ CloseRelease(p) \/ CloseUnlock(p)
            \/ EnableCheck(p) \/ EnableOpen(p)
            \/ SnapLock(p) \/ SnapPos(p) \/ SnapDone(p)
-Step(p) == Step0(p) /\ hz' = hz \cup (IF pc[p] = "s_lock" /\ ~opened THEN {"Z1"} ELSE {})
+Step(p) == /\ Step0(p) /\ hz' = hz \cup (IF pc[p] = "s_lock" /\ ~opened THEN {"Z1"} ELSE {})
+           /\ (pc[p] \in {"s_init", "s_chk_reacq", "s_unlock"} \/ UNCHANGED rtxBy)
 Next == (\E p \in Procs : Step(p)) \/ (done = Procs /\ UNCHANGED vars)
 Spec == Init /\ [][Next]_vars
 
@@ -114,4 +121,6 @@ LocksFree == AllDone => execSem = "free" /\ chkR = 0 /\ ~chkW
 NoLeakAfterClose == (AllDone /\ ~opened) => (~rtx /\ ~inited)
 NoDeadlock == ~AllDone => ENABLED (\E p \in Procs : Step(p))
 NoLeakAfterCloseK == NoLeakAfterClose \/ hz # {}
+\* with no call in flight an open, initialised DB holds its read transaction (what keeps other connections from restarting the WAL)
+ReadLockWhileOpen == (AllDone /\ opened /\ inited) => rtx
 =============================================================================
